@@ -554,9 +554,9 @@ def rule_fit_law(ck, rid="C15.R7"):
 
 
 def run(ck):
-    rule_fit_law(ck)
-    rule_fit_logic(ck)
-    rule_units(ck)
-    rule_acndata(ck)
-    rule_stochastic(ck)
-    rule_fit(ck)
+    ck.attempt(rule_fit_law)
+    ck.attempt(rule_fit_logic)
+    ck.attempt(rule_units)
+    ck.attempt(rule_acndata)
+    ck.attempt(rule_stochastic)
+    ck.attempt(rule_fit)
